@@ -141,4 +141,44 @@ def csoFromShapes (loc1 : V3 K → V3 K) (posed2 : Iso3 K → V3 K → V3 K) (po
 def csoFromShapesToward (toward1 : V3 K → V3 K) (ptoward2 : Iso3 K → V3 K → V3 K) (pos12 : Iso3 K) (dir : V3 K) : CSOPoint K :=
   csoNew (toward1 dir) (ptoward2 pos12 dir.neg)
 
+/-! ## `ConvexPolygon::support_feature_id_toward` / `feature_normal` (2-D, `shape/convex_polygon.rs`) -/
+
+/-- the `normals` of a polygon built by `from_convex_polyline_unmodified` (see `polygonFeature`); `none` = constructor
+failure -/
+def polygonNormals (pts : List (V2 K)) : Option (List (V2 K)) :=
+  let n := pts.length
+  if n ≤ 2 then none else
+  let normals := (List.range n).map fun i => ccwFaceNormal2 (pts.getD i V2.zero) (pts.getD ((i + 1) % n) V2.zero)
+  if normals.any Option.isNone then none else some (normals.filterMap id)
+
+/-- "Check faces": `for i in 0..normals.len() { if normals[i].dot(dir) >= ceps { return Face(i) } }` -/
+def scanNormals2 (dir : V2 K) (ceps : K) : List (V2 K) → Nat → Option Nat
+  | [], _ => none
+  | n :: ns, i => if ceps ≤ n.dot dir then some i else scanNormals2 dir ceps ns (i + 1)
+
+/-- `ConvexPolygon::support_feature_id_toward` with `ceps = cos(π/180)`; outer `none` = panic / constructor failure -/
+def polygonFeatureIdEps (pts : List (V2 K)) (dir : V2 K) (ceps : K) : Option FeatId :=
+  match polygonNormals pts with
+  | none => none
+  | some ns =>
+    match scanNormals2 dir ceps ns 0 with
+    | some i => some (.face i)
+    | none => (cloudId2 dir pts).map .vertex
+def polygonFeatureId (pts : List (V2 K)) (dir : V2 K) : Option FeatId := polygonFeatureIdEps pts dir cosDeg
+
+/-- `ConvexPolygon::feature_normal`: a face normal, or `normalize(normals[id - 1 (cyclic)] + normals[id])` for a vertex;
+outer `none` = index panic, inner `none` = `None` (edges do not exist in 2-D) -/
+def polygonFeatureNormal (pts : List (V2 K)) (f : FeatId) : Option (Option (V2 K)) :=
+  match polygonNormals pts with
+  | none => none
+  | some ns =>
+    match f with
+    | .face i => (ns[i]?).map some
+    | .vertex id2 =>
+      let id1 := if id2 = 0 then ns.length - 1 else id2 - 1
+      match ns[id1]?, ns[id2]? with
+      | some n1, some n2 => some (some (normalize2 (n1.add n2)))
+      | _, _ => none
+    | .edge _ => some none
+
 end Model.C10
